@@ -54,6 +54,49 @@ func rC04Dominates(w *World, r *Report) {
 	}
 	falseK := 1 - m.termTrue
 	trueRegion := m.termRegion()
+	// the tokeniser itself refuses "--": what is only reachable after it accepted the current token is not reachable
+	// for the terminator either (the terminator test may then come after the option block)
+	var acceptedEdges [][2]interface{}
+	if tokeniserRejectsTerminator(w) {
+		for _, oc := range m.isOptCalls {
+			if len(oc.Call.Args) == 0 || !m.mainNext.Block().Dominates(oc.Block()) {
+				continue
+			}
+			vc, isCall := oc.Call.Args[0].(*ssa.Call)
+			if !isCall || !m.iterCall(vc, nIterValue) {
+				continue
+			}
+			// no look-ahead advance between the loop head and the call: the token is the current one
+			cur := true
+			for _, n := range m.nextCalls {
+				if n != m.mainNext && n.Block().Dominates(oc.Block()) {
+					cur = false
+				}
+			}
+			if !cur || oc.Referrers() == nil {
+				continue
+			}
+			for _, ref := range *oc.Referrers() {
+				ex, isEx := ref.(*ssa.Extract)
+				if !isEx || ex.Index != 1 || ex.Referrers() == nil {
+					continue
+				}
+				for _, r2 := range *ex.Referrers() {
+					if iff, isIf := r2.(*ssa.If); isIf && iff.Cond == ssa.Value(ex) {
+						acceptedEdges = append(acceptedEdges, [2]interface{}{iff.Block(), 0})
+					}
+				}
+			}
+		}
+	}
+	behindAccepted := func(b *ssa.BasicBlock) bool {
+		for _, ae := range acceptedEdges {
+			if edgeDominates(ae[0].(*ssa.BasicBlock), ae[1].(int), b) {
+				return true
+			}
+		}
+		return false
+	}
 	for _, e := range m.effects() {
 		b := e.Instr.Block()
 		key := "effect/" + e.Kind
@@ -71,10 +114,54 @@ func rC04Dominates(w *World, r *Report) {
 		}
 		if edgeDominates(tb, falseK, b) {
 			ru.OK(key, w.IPos(e.Instr), "only reachable when the current token is not \"--\"")
+		} else if behindAccepted(b) {
+			ru.OK(key, w.IPos(e.Instr), "only reachable after the tokeniser accepted the current token, which it never does for \"--\"")
 		} else {
 			ru.Bad(key, w.IPos(e.Instr), "interpretation effect not dominated by the terminator test: a \"--\" token (or what follows it) can be interpreted here: "+describeInstr(e.Instr))
 		}
 	}
+}
+
+// tokeniserRejectsTerminator: isOption tests its text against "--" in a block that every return lies behind, and on the
+// equal edge only returns false.
+func tokeniserRejectsTerminator(w *World) bool {
+	fn := w.Fn(nIsOption)
+	if fn == nil || len(fn.Params) == 0 {
+		return false
+	}
+	for _, b := range fn.Blocks {
+		iff, ok := b.Instrs[len(b.Instrs)-1].(*ssa.If)
+		if !ok {
+			continue
+		}
+		bo, ok := iff.Cond.(*ssa.BinOp)
+		if !ok || bo.Op != token.EQL || bo.X != ssa.Value(fn.Params[0]) {
+			continue
+		}
+		if s, ok := constString(bo.Y); !ok || s != "--" {
+			continue
+		}
+		ig := buildIG(fn)
+		good, n := true, 0
+		for i, sn := range ig.reachPlain(ig.edgeStart(b, 0), nil) {
+			if ret, isRet := ig.instrs[i].(*ssa.Return); isRet && sn {
+				n++
+				c, isC := ret.Results[len(ret.Results)-1].(*ssa.Const)
+				if !isC || c.Value == nil || c.Value.String() != "false" {
+					good = false
+				}
+			}
+		}
+		for _, rb := range fn.Blocks {
+			if _, isRet := rb.Instrs[len(rb.Instrs)-1].(*ssa.Return); isRet && !b.Dominates(rb) {
+				good = false
+			}
+		}
+		if good && n > 0 {
+			return true
+		}
+	}
+	return false
 }
 
 // termRegion: instructions reachable from the terminator edge before the loop head is reached again.
